@@ -92,7 +92,23 @@ def rule_bn2_bn3(repo, col):
     fill = [n for n in body if isinstance(n, ast.For) and any(isinstance(c, ast.Call) and norm(c.func) == "%s.append" % ph for c in ast.walk(n))]
     okfill = False
     heads = None
-    if len(fill) == 1 and isinstance(fill[0].target, ast.Name):
+    # the same list written as a comprehension: [h.probability.compute_value() if h.probability is not None else 1.0 for h in heads]
+    comp = [st for st in body if isinstance(st, ast.Assign) and norm(st.targets[0]) == ph and isinstance(st.value, ast.ListComp)]
+    if not fill and len(comp) == 1 and len(comp[0].value.generators) == 1 and not comp[0].value.generators[0].ifs and isinstance(comp[0].value.generators[0].target, ast.Name):
+        gen = comp[0].value.generators[0]
+        h = gen.target.id
+        heads = norm(gen.iter)
+        elt = comp[0].value.elt
+        okc = False
+        if isinstance(elt, ast.IfExp):
+            t_, a_, b_ = norm(elt.test), norm(elt.body), norm(elt.orelse)
+            val = "%s.probability.compute_value()" % h
+            okc = (t_ == "%s.probability is not None" % h and a_ == val and b_ == "1.0") or (t_ == "%s.probability is None" % h and a_ == "1.0" and b_ == val)
+        col.decide("BN2", m, comp[0], okc, "every head contributes its probability (1.0 when it has none), in order",
+                   "probs_heads must hold head.probability.compute_value() - or 1.0 for a head without probability - for every head, in the order of the heads; found %s" % norm(elt)[:100],
+                   function="clause_to_cpt")
+        fill = None
+    if fill is not None and len(fill) == 1 and isinstance(fill[0].target, ast.Name):
         heads = norm(fill[0].iter)
         h = fill[0].target.id
         ps = dtable.extract_block(fill[0].body, opaque_loops=True)
@@ -107,7 +123,8 @@ def rule_bn2_bn3(repo, col):
                 okfill = okfill and app == [["1.0"]]
             else:
                 okfill = okfill and app == [["%s.probability.compute_value()" % h]]
-    col.decide("BN2", m, fill[0] if fill else f.node, okfill, "every head contributes its probability (1.0 when it has none), in order",
+    if fill is not None:
+      col.decide("BN2", m, fill[0] if fill else f.node, okfill, "every head contributes its probability (1.0 when it has none), in order",
                "probs_heads must receive head.probability.compute_value() - or 1.0 for a head without probability - for every head, in the order of the heads",
                **({} if fill else {"construct": "clause branch: probs_heads", "function": "clause_to_cpt"}))
     rows = [n for n in body if isinstance(n, ast.For) and isinstance(n.iter, ast.Call) and dotted(n.iter.func) == "itertools.product"]
@@ -158,11 +175,23 @@ def rule_bn2_bn3(repo, col):
             loops = [n for n in b.body if isinstance(n, ast.For) and isinstance(n.iter, ast.Call) and dotted(n.iter.func) == "enumerate"]
             ok = False
             node = f.node
+            headsv = dom[0][1]["V_heads"] if dom else None
+            cnv = dom[0][1]["V_cn"] if dom else None
+            if not loops and dom:
+                # inlining bound 1: the loop may live in a module-level helper that receives the heads and the choice variable
+                for st in b.body:
+                    if isinstance(st, ast.Expr) and isinstance(st.value, ast.Call) and isinstance(st.value.func, ast.Name) and st.value.func.id in m.functions and not st.value.keywords:
+                        h_ = m.functions[st.value.func.id]
+                        argn = [norm(a_) for a_ in st.value.args]
+                        if headsv in argn and cnv in argn and len(argn) == len(h_.params):
+                            loops = [n for n in h_.node.body if isinstance(n, ast.For) and isinstance(n.iter, ast.Call) and dotted(n.iter.func) == "enumerate"]
+                            headsv = h_.params[argn.index(headsv)]
+                            cnv = h_.params[argn.index(cnv)]
             if len(loops) == 1 and isinstance(loops[0].target, ast.Tuple) and len(loops[0].target.elts) == 2 and dom:
                 idx = norm(loops[0].target.elts[0])
                 node = loops[0]
-                ok = norm(loops[0].iter.args[0]) == dom[0][1]["V_heads"] and len(loops[0].iter.args) == 1
-                pairs = pat.find("V_pgm.add_factor(OrCPT(V_pgm, V_rv, [(%s, E_val)]))" % dom[0][1]["V_cn"], loops[0])
+                ok = norm(loops[0].iter.args[0]) == headsv and len(loops[0].iter.args) == 1
+                pairs = pat.find("V_pgm.add_factor(OrCPT(V_pgm, V_rv, [(%s, E_val)]))" % cnv, loops[0])
                 ok = ok and len(pairs) == 1 and pairs[0][1]["E_val"] in ("%s + 1" % idx, "1 + %s" % idx)
             col.decide("BN3", m, node, ok, "%s branch: head idx is true for choice value idx + 1" % cls_name,
                        "in the %s branch head number idx (as enumerated over the heads, from 0) must be attached to choice value idx + 1: value 0 is 'no head' and the probabilities "
